@@ -564,6 +564,9 @@ func (fc *FuncCtx) applyContract(con *Contract, callee *ssa.Function, sig *types
 				}
 			}
 			vars[names[i]] = tv
+			if _, taken := vars[names[i]+"0"]; !taken {
+				vars[names[i]+"0"] = tv // the entry value of the parameter, as the callee's own clauses may call it
+			}
 		}
 	}
 	ord := fc.ordinal("call@" + shortCallee(key))
